@@ -4,7 +4,7 @@ import base64
 from hypothesis import strategies as st
 
 from harness import build, gen, simnet, wire, httpref
-from harness.runner import Prop, Enumeration, held, failed
+from harness.runner import Prop, Enumeration, held, failed, after_every_prelude
 from props.c01 import effective_seg
 
 HOSTS = ["example.test", "EXAMPLE.Test", "a.b-c.example", "127.0.0.1", "localhost", "xn--bcher-kva.example"]
@@ -127,6 +127,8 @@ class C10(Prop):
             "key2": st.one_of(st.none(), st.binary(min_size=16, max_size=16).map(lambda b: b.hex())),
             "reply": reply,
             "seg": gen.segmentation(),
+            # an earlier connection in this process (same WebSocket object or another) and how it ended
+            "prelude": gen.prelude(),
         })
 
     def enumerations(self, tier):
@@ -166,8 +168,15 @@ class C10(Prop):
                                                "reply": {"status": 101, "upgrade": "websocket", "accept": accept,
                                                          "terminate": True, "casing": c2, "ows": o2, "order": order,
                                                          "fold_start": None if fold is None else [at]}}
+        base = {"url": {"scheme": "ws", "host": "example.test", "port": None, "path": "/", "query": ""}, "protocols": [],
+                "headers": [], "agent": None, "compress": False, "key": "000102030405060708090a0b0c0d0e0f", "key2": None,
+                "seg": "whole"}
+        battery = [dict(base, reply={"status": 101, "upgrade": "websocket", "accept": "correct", "terminate": True}),
+                   dict(base, reply={"status": 101, "upgrade": "websocket", "accept": "other_key", "terminate": True}),
+                   dict(base, reply={"status": 101, "upgrade": "h2c", "accept": "correct", "terminate": True}),
+                   dict(base, reply={"status": 200, "upgrade": "websocket", "accept": "correct", "terminate": True})]
         return [Enumeration("accept_x_upgrade_x_status", accepts, exhaustive=True),
-                Enumeration("header_spellings", spellings, exhaustive=True)]
+                Enumeration("header_spellings", spellings, exhaustive=True), after_every_prelude(battery)]
 
     def run_case(self, case):
         u = case["url"]
